@@ -1,3 +1,131 @@
-(** C01 (stub while the correspondence is being established). *)
-From AGH Require Import Model.Pipeline.
-Example C01_stub : True. Proof. exact I. Qed.
+(** C01: a query blocked by rules is answered locally and never forwarded.
+    Only statements here; proofs live in Proofs/Pipeline.v (layer A: AdGuard
+    Home's pipeline, for arbitrary rule engines, verdict oracles and
+    upstreams) and Proofs/RuleEngine.v (layer B: the engine model). *)
+From Coq Require Import List NArith Bool.
+From AGH Require Import Base.Run Base.NetAddr Base.RuleEngine Model.Pipeline Proofs.Pipeline Proofs.RuleEngine.
+Import ListNotations.
+Local Open Scope N_scope.
+
+(** For all configurations (five modes, any custom addresses and TTL), all
+    engines, oracles, upstreams and requests: protection on, and the rule
+    lists block the name (no allow-list rule matches, the block engine's
+    winning rule is not an exception) or an active blocked service does
+    while the lists are silent  ==>  nothing is sent upstream and the answer
+    is the synthetic answer of the mode (the table [synthetic]). *)
+Theorem C01_blocked_is_local :
+  forall allow_eng block_eng sb par c up q,
+  blocked_by_spec allow_eng block_eng c q ->
+  let o := process allow_eng block_eng sb par c up q in
+  o_calls o = [] /\
+  r_filtered (o_result o) = true /\ rule_reason (r_reason (o_result o)) /\
+  o_resp o = Some (synthetic c (q_name q) (q_qtype q) (ips_from_rules (o_result o))).
+Proof. exact blocked_is_local. Qed.
+Print Assumptions C01_blocked_is_local.
+
+(** "The answer contains no upstream data": non-interference in the upstream. *)
+Theorem C01_no_upstream_data :
+  forall allow_eng block_eng sb par c up1 up2 q,
+  blocked_by_spec allow_eng block_eng c q ->
+  process allow_eng block_eng sb par c up1 q = process allow_eng block_eng sb par c up2 q.
+Proof. exact no_upstream_data. Qed.
+Print Assumptions C01_no_upstream_data.
+
+(** A query matched by an allow-list rule, or by nothing at all, passes the
+    request stage ... *)
+Theorem C01_allow_rule_passes :
+  forall allow_eng block_eng sb par c q,
+  early c q = false -> protection_on c = true -> host_of q <> [] ->
+  allow_hit allow_eng (client_settings c q) (host_of q) (q_qtype q) ->
+  passes_request_stage allow_eng block_eng sb par c q /\
+  r_reason (check_host allow_eng block_eng sb par (client_settings c q) (trim_dot (q_name q)) (q_qtype q))
+    = NotFilteredAllowList.
+Proof. exact allow_hit_passes. Qed.
+Print Assumptions C01_allow_rule_passes.
+
+Theorem C01_unmatched_passes :
+  forall allow_eng block_eng sb par c q,
+  early c q = false -> nothing_matches allow_eng block_eng sb par c q ->
+  passes_request_stage allow_eng block_eng sb par c q /\
+  check_host allow_eng block_eng sb par (client_settings c q) (trim_dot (q_name q)) (q_qtype q) = no_result.
+Proof. exact nothing_matches_passes. Qed.
+Print Assumptions C01_unmatched_passes.
+
+(** ... and is forwarded exactly once with its own name and type; an
+    allow-listed query gets the upstream answer exactly as it came (for the
+    unmatched case see C02_clean_answer_unchanged). *)
+Theorem C01_forwarded_once :
+  forall allow_eng block_eng sb par c up q,
+  passes_request_stage allow_eng block_eng sb par c q ->
+  o_calls (process allow_eng block_eng sb par c up q) = [the_call q] /\
+  (up (q_name q) (q_qtype q) = None ->
+   o_resp (process allow_eng block_eng sb par c up q) = Some servfail).
+Proof. exact forwarded_once. Qed.
+Print Assumptions C01_forwarded_once.
+
+Theorem C01_forwarded_intact :
+  forall allow_eng block_eng sb par c up q r,
+  passes_request_stage allow_eng block_eng sb par c q ->
+  r_reason (check_host allow_eng block_eng sb par (client_settings c q) (trim_dot (q_name q)) (q_qtype q))
+    = NotFilteredAllowList ->
+  up (q_name q) (q_qtype q) = Some r ->
+  o_resp (process allow_eng block_eng sb par c up q) = Some r /\
+  r_reason (o_result (process allow_eng block_eng sb par c up q)) = NotFilteredAllowList.
+Proof. exact allowlisted_intact. Qed.
+Print Assumptions C01_forwarded_intact.
+
+(** Protection off (switched off, or paused with the deadline ahead):
+    nothing is blocked, whatever the lists, services and oracles say. *)
+Theorem C01_protection_off :
+  forall allow_eng block_eng sb par c up q,
+  protection_on c = false -> early c q = false ->
+  let o := process allow_eng block_eng sb par c up q in
+  o_result o = no_result /\ o_calls o = [the_call q] /\
+  o_resp o = Some (match up (q_name q) (q_qtype q) with Some r => r | None => servfail end).
+Proof. exact protection_off. Qed.
+Print Assumptions C01_protection_off.
+
+(** Filtering off for the client: the rule engines are not consulted (the
+    outcome is the same for any two pairs of engines) and no rule-list
+    reason is reported. *)
+Theorem C01_client_filtering_off :
+  forall a1 b1 a2 b2 sb par c up q,
+  st_filtering (client_settings c q) = false ->
+  process a1 b1 sb par c up q = process a2 b2 sb par c up q.
+Proof. exact client_filtering_off. Qed.
+Print Assumptions C01_client_filtering_off.
+
+Theorem C01_client_filtering_off_reason :
+  forall a b sb par c up q,
+  st_filtering (client_settings c q) = false ->
+  let r := r_reason (o_result (process a b sb par c up q)) in
+  r <> FilteredBlockList /\ r <> NotFilteredAllowList.
+Proof. exact client_filtering_off_reason. Qed.
+Print Assumptions C01_client_filtering_off_reason.
+
+(** Layer B: what the engine's verdict means over the rule list. *)
+Theorem C01_engine_verdict_class :
+  forall rs r, get_dns_basic_rule rs = Some r ->
+  In r (remove_badfilter rs) /\
+  forall r', In r' (remove_badfilter rs) -> (rule_class r' <= rule_class r)%nat.
+Proof. exact basic_rule_max_class. Qed.
+Print Assumptions C01_engine_verdict_class.
+
+Theorem C01_engine_verdict_none :
+  forall rs, get_dns_basic_rule rs = None <-> remove_badfilter rs = [].
+Proof. exact basic_rule_none. Qed.
+Print Assumptions C01_engine_verdict_none.
+
+(** Non-vacuity: one configuration per blocking mode that meets the premise
+    of C01_blocked_is_local, with the modelled engine over "||a.test^". *)
+Example C01_blocked_premises_satisfiable :
+  forall m, blocked_by_spec (match_request []) (match_request ex_block_rules) (ex_cfg m) ex_query.
+Proof. exact ex_blocked_by_spec. Qed.
+
+Example C01_allow_premises_satisfiable :
+  allow_hit (match_request ex_allow_rules) (client_settings (ex_cfg MDefault) ex_query) (host_of ex_query) (q_qtype ex_query) /\
+  nothing_matches (match_request []) (match_request ex_block_rules) (fun _ => false) (fun _ => false)
+    (ex_cfg MDefault) ex_query_other /\
+  protection_on ex_cfg_off = false /\ early ex_cfg_off ex_query = false /\
+  st_filtering (client_settings (ex_cfg MDefault) ex_query_kid) = false.
+Proof. exact ex_other_premises. Qed.
